@@ -26,15 +26,15 @@ type ClusterState struct {
 	// Violations collects oracle-side observations (cross-slot MULTI etc.)
 	CrossSlotTxns int
 	// GSeq orders the requests of all nodes; GCrashAfter >= 0: the whole cluster dies once GSeq passes it
-	GSeq        atomic.Int64
+	GSeq atomic.Int64
 	// GCount, when set, selects the requests that count towards the crash limit (counter GW); else all do (GSeq)
 	GCount func(name string) bool
 	GW     atomic.Int64
 	// Serialize makes the nodes execute one request at a time cluster-wide (lock Big, taken after the node's own
 	// lock), so that OnRoute may change topology and move keys between nodes atomically and ESeq is a total order
-	Serialize bool
-	Big       sync.Mutex
-	ESeq      atomic.Int64
+	Serialize   bool
+	Big         sync.Mutex
+	ESeq        atomic.Int64
 	GCrashAfter atomic.Int64
 	GCrashed    atomic.Bool
 }
